@@ -71,6 +71,16 @@ theorem cell_route {env : Env} {l : List Char} {row col : Cell.ParsedLabel}
   rw [evalExpr]
   simp only [callCell, h]
 
+/-- a range answered by the host's listener: the value set for the normalised corner labels -/
+theorem range_route {env : Env} {a b : List Char} {sRow sCol eRow eCol : Cell.ParsedLabel}
+    (ha : Cell.extractLabel (Cell.upper a) = some (sRow, sCol))
+    (hb : Cell.extractLabel (Cell.upper b) = some (eRow, eCol)) :
+    ∃ l1 l2 : List Char, outcome env (.range a b) = .ok (env.rangeValue l1 l2) := by
+  unfold outcome
+  rw [evalExpr]
+  simp only [callRange, ha, hb]
+  exact ⟨_, _, rfl⟩
+
 /-- a custom function without arguments that returns `v` -/
 theorem hostfn_route {env : Env} {f : List Char} {g : HostFn} {v : Value}
     (h : env.custom f = some g) (hg : g [] = .ok v) :
